@@ -506,8 +506,28 @@ func (c *Ctx) codEnc(which map[string]bool) {
 							continue
 						}
 						reached++
+						binds := pathBindings(p)
+						choice := phiChoicesAll(p)
+						res := func(v ssa.Value) ssa.Value {
+							v = stripConv(v)
+							for d := 0; d < 12; d++ {
+								if b, ok := binds[v]; ok && b != v {
+									v = stripConv(b)
+									continue
+								}
+								if phi, ok := v.(*ssa.Phi); ok {
+									if ch, ok := choice[phi]; ok {
+										v = stripConv(ch)
+										continue
+									}
+								}
+								break
+							}
+							return v
+						}
 						if !hasCmp(assumed(p, 0, p.BlockEv[j]), func(k cmp) bool {
-							if stripConv(k.X) != size {
+							// (the size may be computed and tested by a helper that returns it)
+							if res(k.X) != res(size) {
 								return false
 							}
 							n, ok := intConst(k.Y)
@@ -572,7 +592,10 @@ func (c *Ctx) cod6(e *encoder) {
 		env := symRun(p, func(phi *ssa.Phi) (lin, bool) { return lsym("φ:" + phi.Name()), true })
 		// value flowing around the back edge
 		var d delta
-		last := p.Blocks[len(p.Blocks)-1]
+		last := lastBlockOf(p)
+		if last == nil {
+			continue
+		}
 		idx := -1
 		for i, pb := range p.Start.Preds {
 			if pb == last {
@@ -714,6 +737,48 @@ func (c *Ctx) flowsToSize(phi *ssa.Phi, e *encoder) bool {
 			}
 		case *ssa.BinOp:
 			return walk(x.X) || walk(x.Y)
+		case *ssa.Extract:
+			// the size computed by a helper introduced later: what it returns at that position
+			if call, ok := x.Tuple.(*ssa.Call); ok {
+				if f := call.Call.StaticCallee(); f != nil && c.isNewHelper(f) {
+					for _, b := range f.Blocks {
+						for _, ins := range b.Instrs {
+							if r, ok := ins.(*ssa.Return); ok && x.Index < len(r.Results) && walk(r.Results[x.Index]) {
+								return true
+							}
+						}
+					}
+				}
+			}
+		case *ssa.Call:
+			if f := x.Call.StaticCallee(); f != nil && c.isNewHelper(f) {
+				for _, b := range f.Blocks {
+					for _, ins := range b.Instrs {
+						if r, ok := ins.(*ssa.Return); ok && len(r.Results) == 1 && walk(r.Results[0]) {
+							return true
+						}
+					}
+				}
+			}
+		case *ssa.Parameter:
+			// handed down to the encoding helper: the caller's argument
+			if c.isNewHelper(x.Parent()) {
+				idx := -1
+				for i, pr := range x.Parent().Params {
+					if pr == x {
+						idx = i
+					}
+				}
+				for _, b := range c.regionBlocks(e.fn) {
+					for _, ins := range b.Instrs {
+						if ci, ok := ins.(ssa.CallInstruction); ok && ci.Common().StaticCallee() == x.Parent() && idx >= 0 && idx < len(ci.Common().Args) {
+							if walk(ci.Common().Args[idx]) {
+								return true
+							}
+						}
+					}
+				}
+			}
 		}
 		return false
 	}
